@@ -106,6 +106,36 @@ class Run:
                 self.live.append(Live(nb, lv.cons, label=f"s{len(self.live)}"))
                 self.live[-1].added_asts = list(lv.added_asts)
                 outcome = ("ok", None)
+            elif op == "split":
+                parts = s.split()
+                self.keep.append(parts)
+                self.last_split = (lv, parts)
+                outcome = ("ok", len(parts))
+            elif op == "combine":
+                others = [self.live[j] for j in st["others"] if j < len(self.live) and j != st["s"]]
+                nb = s.combine([o.solver for o in others])
+                cons = list(lv.cons)
+                for o in others:
+                    cons += o.cons
+                self.live.append(Live(nb, cons, label=f"s{len(self.live)}"))
+                outcome = ("ok", None)
+            elif op == "merge":
+                others = [self.live[j] for j in st["others"] if j < len(self.live) and j != st["s"]]
+                group = [lv, *others]
+                conds_d = st["conds"][: len(group)]
+                while len(conds_d) < len(group):
+                    conds_d.append(["boolv", True])
+                conds = [self.b(c) for c in conds_d]
+                anc = self.live[st["anc"]] if st.get("anc") is not None and st["anc"] < len(self.live) else None
+                if anc is not None:
+                    flag, nb = s.merge([o.solver for o in others], conds, common_ancestor=anc.solver)
+                    cons = list(anc.cons) + [["bor", *conds_d] if len(conds_d) > 1 else conds_d[0]]
+                else:
+                    flag, nb = s.merge([o.solver for o in others], conds)
+                    opts = [["band", c, *g.cons] if g.cons else c for c, g in zip(conds_d, group)]
+                    cons = [["bor", *opts] if len(opts) > 1 else opts[0]]
+                self.live.append(Live(nb, cons, label=f"s{len(self.live)}"))
+                outcome = ("ok", None)
             else:
                 raise ValueError(op)
         except claripy.errors.UnsatError as e:
@@ -129,7 +159,7 @@ class Run:
         op = st["op"]
         extra_d = st.get("extra", [])
         res = self.res
-        if op in ("add", "simplify", "downsize", "branch"):
+        if op in ("add", "simplify", "downsize", "branch", "split", "combine", "merge"):
             if outcome[0] != "ok":
                 self.viol(st, f"{op}-raised", observed=list(outcome))
             return
